@@ -168,6 +168,8 @@ class OomSession(BusSession):
             return R.bus_call(s, 'RemoveMatch', [R.S(RULE2)])
         if kind == 'call':
             return R.method_call(s, self.uname[op[2]], '/o', 'o.i', 'Do', [R.S('payload')])
+        if kind == 'monitor':
+            return R.method_call(s, R.BUS, R.BUS_PATH, b'org.freedesktop.DBus.Monitoring', 'BecomeMonitor', [R.A('s', []), R.U(0)])
         if kind == 'callfd':
             # a call carrying one descriptor (the harness attaches its descriptor 0)
             return R.Msg(R.MT_CALL, 0, s, [(R.F_PATH, (b'o', b'/o')), (R.F_INTERFACE, (b's', b'o.i')), (R.F_MEMBER, (b's', b'DoFd')),
@@ -224,6 +226,9 @@ PREFIXES = [
     [['req', 'A', 1], ['req', 'B', 0], ['req', 'C', 0]],
     [['req', 'A', 3], ['req', 'B', 1], ['add', 'A']],
     [['call', 'A', 'B'], ['call', 'C', 'B'], ['req', 'B', 0]],
+    # a monitor is attached: every request is also captured for it (more allocations, more places to fail)
+    [['monitor', 'C']],
+    [['monitor', 'C'], ['req', 'A', 1], ['req', 'B', 0]],
 ]
 
 
@@ -239,6 +244,10 @@ def requests_for(prefix):
     reqs.append(['disc', 'B'])
     if any(p[0] == 'call' for p in prefix):
         reqs.append(['reply', 'B', 'A', None])
+    if any(p[0] == 'monitor' for p in prefix):
+        mon = [p[1] for p in prefix if p[0] == 'monitor']
+        reqs = [r for r in reqs if r[1] not in mon and (len(r) < 3 or r[2] not in mon)]     # a monitor neither sends nor is addressed
+        reqs += [['call', 'A', 'B'], ['callfd', 'A', 'B'], ['bcast', 'A'], ['callname', 'A']]
     return reqs
 
 
